@@ -55,3 +55,9 @@ Definition run_close_pi (x t : Q) : list Z := [bout (is_close_to_multiple_of_pi 
 Definition run_angles_close (thrQ a b : Q) : list Z := [bout (are_angles_close hpQ thrQ a b)].
 Definition run_distance (a b : list Q) : list Z := Qout (calculate_distance a b).
 Definition run_singular (thrQ dthr : Q) (sg off j : list Q) : list Z := [bout (singular hpQ (thrQ + dthr)%Q sg off j)].
+
+(** [sort_by_closeness] alone: the stable sort of the solutions by the documented cost *)
+Definition run_sort (c : option (list Q * list Q * Q)) (sentinel : bool) (prev : list Q) (sols : list (list Q)) : list Z :=
+  let cons := mk_cons 0 c in
+  let previous := if sentinel then centers cons else prev in
+  sols_out (sort_by (cost cons previous) sols).
